@@ -75,7 +75,7 @@ def names_module(E, derives=("Display", "AsRefStr", "IntoStaticStr", "VariantNam
         src += D.decoys(E, ds)       # inherent items named like the traits' (drivers below call the traits by path)
     B = twin(E)
     if dep:
-        src += D.print_enum(B, ["ToString", "AsStaticStr"]) + "\n"
+        src += D.print_enum(B, ["ToString", "AsStaticStr"] + (["EnumVariantNames"] if "VariantNames" in ds else [])) + "\n"
     did = E["id"]
     body = []
     err = err_type(E)
@@ -139,6 +139,9 @@ def names_module(E, derives=("Display", "AsRefStr", "IntoStaticStr", "VariantNam
                 body.append('    { let x = %s; o.line(&format!("{{\\"op\\":\\"sers\\",\\"def\\":%d,\\"i\\":%d,\\"sers\\":{}}}", jstrs(strum::EnumMessage::get_serializations(&x)))); }' % (D.ctor(E, v, which), did, i + 1))
     if "VariantNames" in ds:
         body.append('    o.line(&format!("{{\\"op\\":\\"vnames\\",\\"def\\":%d,\\"names\\":{}}}", jstrs(<%s as strum::VariantNames>::VARIANTS)));' % (did, D.inst(E)))
+        if dep:
+            # the deprecated spelling of the same derive, on the twin enum
+            body.append('    o.line(&format!("{{\\"op\\":\\"vnames\\",\\"def\\":%d,\\"names\\":{}}}", jstrs(<%s as strum::VariantNames>::VARIANTS)));' % (did, D.inst(B)))
     src += ("pub fn run(o: &mut Out, ins: &std::collections::HashMap<u32, Vec<String>>, seed: u64) {\n%s\n}\n" % "\n".join(body))
     return src
 
